@@ -46,6 +46,11 @@ type Resp struct {
 	// does not carry it): the proxy itself adds the line to the head it writes
 	// and closes the connection after the response.
 	ReqClose bool `json:"req_close,omitempty"`
+	// CR: the origin answers 206 with this odd Content-Range value ("<missing>":
+	// no such header, "<empty>": empty value).
+	CR string `json:"cr,omitempty"`
+	// OClose: the origin's answer carries "Connection: close" itself.
+	OClose bool `json:"oclose,omitempty"`
 	// LClose: Listener.Close is called (as Proxy.Serve does at shutdown) while
 	// this response still has writes ahead; it must be delivered all the same.
 	LClose bool `json:"lclose,omitempty"`
@@ -241,6 +246,7 @@ type world struct {
 	origin *netkit.Origin
 	omu    sync.Mutex
 	script map[string][]byte
+	sclose map[string]bool
 
 	conns  map[int]*wconn
 	active *cfgM
@@ -272,7 +278,7 @@ var confirmedLeaks sync.Map
 var loopRe = regexp.MustCompile(`trafficshape\.\(\*Bucket\)\.loop`)
 
 func newWorld(level string, T time.Duration, res bool) *world {
-	w := &world{level: level, T: T, conns: map[int]*wconn{}, script: map[string][]byte{}}
+	w := &world{level: level, T: T, conns: map[int]*wconn{}, script: map[string][]byte{}, sclose: map[string]bool{}}
 	if res {
 		w.baseline = kit.GoroutinesMatching(loopRe)
 	}
@@ -287,11 +293,15 @@ func newWorld(level string, T time.Duration, res bool) *world {
 		serve := func(r *netkit.ReqLog) netkit.Script {
 			w.omu.Lock()
 			raw := w.script[r.Path]
+			after := ""
+			if w.sclose[r.Path] {
+				after = "close"
+			}
 			w.omu.Unlock()
 			if raw == nil {
 				raw = []byte("HTTP/1.1 500 Unscripted\r\nContent-Length: 0\r\n\r\n")
 			}
-			return netkit.Script{Raw: raw, CutAt: -1}
+			return netkit.Script{Raw: raw, CutAt: -1, After: after}
 		}
 		p := martian.NewProxy()
 		if level == "mitm" {
@@ -306,6 +316,23 @@ func newWorld(level string, T time.Duration, res bool) *world {
 		} else {
 			w.origin = netkit.NewOrigin(serve)
 		}
+		// requests under /hj/ are hijacked by a request modifier, which writes the scripted
+		// bytes to the connection it is handed and returns
+		p.SetRequestModifier(martian.RequestModifierFunc(func(req *http.Request) error {
+			if !strings.HasPrefix(req.URL.Path, "/hj/") {
+				return nil
+			}
+			w.omu.Lock()
+			raw := w.script[req.URL.Path]
+			w.omu.Unlock()
+			conn, _, err := martian.NewContext(req).Session().Hijack()
+			if err != nil {
+				return err
+			}
+			conn.SetWriteDeadline(time.Now().Add(30 * time.Second))
+			conn.Write(raw)
+			return nil
+		}))
 		d := &netkit.Dialer{Route: func(string) string { return w.origin.Addr }}
 		p.SetDial(d.Dial)
 		p.SetTimeout(60 * time.Second)
@@ -623,6 +650,7 @@ type obs struct {
 	certain  int64
 	crossedH []*act
 	latency  int64                        // ms the connection owes before its first byte (first response only)
+	ambiguous bool                         // odd Content-Range: range start undefined, prefix integrity only
 	thr      *trafficshape.ThrottleContext // conn level: what GetCurrentThrottle told the harness-as-proxy
 }
 
@@ -1002,6 +1030,9 @@ func (w *world) label(o *obs) string {
 			fr = "chunked-"
 		}
 		base = fr + base
+		if o.r.CR != "" {
+			base = fr + "odd-content-range"
+		}
 		if o.r.Star && (o.r.Start > 0 || o.r.P206) {
 			base += "-unknown-total"
 		}
@@ -1079,7 +1110,7 @@ func (w *world) evaluate(group []*obs) {
 				w.failf(w.sig(o, "throttle-at-range-start-wrong"), "response %s starts at offset %d; the shape's throttles %v put it in a throttle: %v (bandwidth %d), GetCurrentThrottle answered %+v", o.url, o.start, shape.thrs, in, bw, *o.thr)
 			}
 		}
-		if o.r.Chunked {
+		if o.r.Chunked || o.ambiguous {
 			// offsets count wire bytes: only prefix integrity is decided, and
 			// the counts this response may have consumed are unknown
 			for _, a := range shape.acts {
@@ -1208,7 +1239,7 @@ func (w *world) evaluate(group []*obs) {
 		var thr time.Duration
 		var thrS float64
 		var halts int64
-		if o.shape != nil && !o.r.Chunked {
+		if o.shape != nil && !o.r.Chunked && !o.ambiguous {
 			thrS = o.shape.throttleSeconds(o.start, o.start+int64(o.db))
 			thr = time.Duration(thrS * float64(time.Second))
 			halts = o.certain
@@ -1262,11 +1293,19 @@ func originResponse(r Resp) []byte {
 	body := kit.Bytes(r.Seed, r.Body)
 	var b bytes.Buffer
 	status := "200 OK"
-	if r.Start > 0 || r.P206 || r.Start < 0 {
+	if r.Start > 0 || r.P206 || r.Start < 0 || r.CR != "" {
 		status = "206 Partial Content"
 	}
 	fmt.Fprintf(&b, "HTTP/1.1 %s\r\nX-Origin: yes\r\n", status)
+	if r.OClose {
+		b.WriteString("Connection: close\r\n")
+	}
 	switch {
+	case r.CR == "<missing>":
+	case r.CR == "<empty>":
+		b.WriteString("Content-Range:\r\n")
+	case r.CR != "":
+		fmt.Fprintf(&b, "Content-Range: %s\r\n", r.CR)
 	case r.Start < 0:
 		b.WriteString("Content-Type: multipart/byteranges; boundary=c18\r\n")
 	case r.Start > 0 || r.P206:
@@ -1297,6 +1336,23 @@ func originResponse(r Resp) []byte {
 		b.Write(body)
 	}
 	return b.Bytes()
+}
+
+var crStartRe = regexp.MustCompile(`(\d+)-\d`)
+
+// crNoStart: an odd Content-Range value in which no first-byte position can be
+// read at all (no "digits-digits", or a number beyond int64): such a response has
+// no range start and is not shaped. Everything else is ambiguous.
+func crNoStart(cr string) bool {
+	if cr == "<missing>" || cr == "<empty>" {
+		return true
+	}
+	m := crStartRe.FindStringSubmatch(cr)
+	if m == nil {
+		return true
+	}
+	_, err := strconv.ParseInt(m[1], 10, 64)
+	return err != nil
 }
 
 // dechunk decodes as much of a chunked body as is there.
@@ -1346,13 +1402,22 @@ func (w *world) respE2E(wc *wconn, r Resp) {
 	seq := w.seq
 	o := &obs{wc: wc, r: r, seq: seq, url: urlFor(r.Pat, seq), start: r.Start, L: r.Body}
 	path := o.url[len("http://"+host):]
+	raw := originResponse(r)
+	if r.CR != "" {
+		if crNoStart(r.CR) {
+			r.Start, o.r.Start, o.start = -1, -1, -1
+		} else {
+			o.ambiguous = true // the statement does not say what the range start of such a response is
+		}
+	}
 	target := o.url
 	if w.level == "mitm" {
 		o.url = "https" + o.url[len("http"):]
 		target = path
 	}
 	w.omu.Lock()
-	w.script[path] = originResponse(r)
+	w.script[path] = raw
+	w.sclose[path] = r.OClose
 	w.omu.Unlock()
 	body := kit.Bytes(r.Seed, r.Body)
 	lbl := w.label(o)
@@ -1399,7 +1464,7 @@ func (w *world) respE2E(wc *wconn, r Resp) {
 	}
 	lines := strings.Split(string(head), "\r\n")
 	wantStatus := "200"
-	if r.Start > 0 || r.P206 || r.Start < 0 {
+	if r.Start > 0 || r.P206 || r.Start < 0 || r.CR != "" {
 		wantStatus = "206"
 	}
 	if !strings.HasPrefix(lines[0], "HTTP/1.1 "+wantStatus) {
@@ -1468,7 +1533,7 @@ func (w *world) respE2E(wc *wconn, r Resp) {
 	}
 	o.dur = doneAt.Sub(o.t0)
 	wc.consumed = endOfResp
-	if r.ReqClose {
+	if r.ReqClose || r.OClose {
 		wc.dead = true // the proxy closes after this response
 	}
 	w.evaluate([]*obs{o})
@@ -1532,6 +1597,48 @@ func (w *world) tunnelE2E(id int, r Resp) {
 	}
 	if got := wc.st.slice(wc.consumed, want); !bytes.Equal(got, raw) {
 		fail("tunnel-bytes-differ", "tunnel bytes differ: %s", kit.Diff(raw, got))
+	}
+	wc.consumed = want
+}
+
+// hijackE2E sends a request that the proxy's request modifier hijacks; the
+// modifier writes a scripted message to the connection it got. Nothing of it is a
+// response to a URL matching a shape: every byte must arrive.
+func (w *world) hijackE2E(id int, r Resp) {
+	wc := w.conns[id]
+	if wc == nil || wc.dead {
+		return
+	}
+	w.seq++
+	path := fmt.Sprintf("/hj/r%d", w.seq)
+	r.Start, r.P206, r.Chunked, r.Star, r.CR = 0, false, false, false, ""
+	raw := originResponse(r)
+	w.omu.Lock()
+	w.script[path] = raw
+	w.omu.Unlock()
+	wc.dead = true
+	shape := "hijack-on-fresh-connection"
+	if wc.wrote {
+		shape = "hijack-after-exchanges"
+	}
+	target := "http://" + host + path
+	if w.level == "mitm" {
+		target = path
+	}
+	wc.cl.SetWriteDeadline(time.Now().Add(w.T))
+	fmt.Fprintf(wc.cl, "GET %s HTTP/1.1\r\nHost: %s\r\n\r\n", target, host)
+	want := wc.consumed + len(raw)
+	if !wc.st.waitLen(want, w.T) {
+		n, ended := wc.st.state()
+		class := "hijacker-bytes-missing-timeout"
+		if ended {
+			class = "hijacker-bytes-cut"
+		}
+		w.failf("C18/"+w.level+"/"+shape+"/"+class, "%d of the %d bytes the hijacking modifier wrote arrived (connection ended: %v); the connection had served %d bytes of exchanges before", n-wc.consumed, len(raw), ended, wc.consumed)
+		return
+	}
+	if got := wc.st.slice(wc.consumed, want); !bytes.Equal(got, raw) {
+		w.failf("C18/"+w.level+"/"+shape+"/hijacker-bytes-differ", "bytes differ: %s", kit.Diff(raw, got))
 	}
 	wc.consumed = want
 }
@@ -1636,6 +1743,10 @@ func runOnce(c Case, T time.Duration) kit.Verdict {
 		case "tunnel":
 			if st.R != nil && w.level == "e2e" {
 				w.tunnelE2E(st.Conn, *st.R)
+			}
+		case "hijack":
+			if st.R != nil && w.wire() {
+				w.hijackE2E(st.Conn, *st.R)
 			}
 		case "open":
 			w.open(st.Conn, st.Faulty && w.level == "conn")
